@@ -240,6 +240,10 @@ def _mk_address(op):
     return a
 
 
+def _ascii(b):
+    return bytes(32 + (x % 95) for x in b)
+
+
 def _slice_cls():
     from pytoniq_core.boc.slice import Slice
     return Slice
@@ -280,6 +284,8 @@ def _store(b, op, aux):
         return b.store_string(op['v'])
     if k == 'snake':
         how = op.get('as', 'bytes')
+        if how == 'string-ascii':               # long texts: the stream bytes folded into 7-bit ASCII
+            return b.store_snake_string(_ascii(bytes.fromhex(op['v'])).decode('ascii'))
         if how == 'string':
             return b.store_snake_string(bytes.fromhex(op['v']).decode('utf-8'))
         if how == 'string-prefix':              # need_prefix=True puts one zero byte in front (TEP-64 snake tag)
@@ -364,6 +370,8 @@ def _accessors(s, op, aux):
         return (lambda: s.preload_string(n)), (lambda: s.load_string(n)), (lambda x: x == op['v'])
     if k == 'snake':
         data = bytes.fromhex(op['v'])
+        if op.get('as') == 'string-ascii':
+            data = _ascii(data)
         if op.get('as', 'bytes') != 'bytes':
             return None, s.load_snake_string, (lambda x: isinstance(x, str) and x == data.decode('utf-8'))
         return None, s.load_snake_bytes, (lambda x: isinstance(x, (bytes, bytearray)) and bytes(x) == data)
@@ -478,6 +486,8 @@ def _run(ops, fails):
             continue
         if k == 'snake':
             data = bytes.fromhex(op['v'])
+            if op.get('as') == 'string-ascii':
+                data = _ascii(data)
             want_bits, want_refs = None, None
         elif k == 'slice':
             want_bits, want_refs = enc_bits(op), list(aux[1])
@@ -1023,6 +1033,11 @@ def enum_snake(tier):
                 else:
                     ops.insert(0, {'op': 'bits', 'v': ''})
             yield {'ops': ops}
+    # "of any length": the longest snakes a cell tree can hold - the chain may be 1023 cells deep below the root, 127 bytes each
+    for prefix, ln in ((0, 127 * 600), (0, 127 * 1000 + 5), (0, 127 * 1023), (0, 127 * 1024), (0, 127 * 1024 - 1), (100, 27 + 127 * 1023),
+                       (127, 127 * 1023), (3, 124 + 127 * 1022 + 1)):
+        yield {'ops': [{'op': 'bytes', 'v': _stream(f'pfx{prefix}', prefix).hex()}, {'op': 'bits', 'v': ''},
+                       {'op': 'snake', 'v': _stream(f'snake-long{prefix}/{ln}', ln).hex(), 'as': 'bytes' if ln % 2 else 'string-ascii'}]}
 
 
 SUBCHECKS = [
